@@ -50,6 +50,9 @@ func C04(c *Ctx) {
 	c.R.Rule("C04-R5", "E5", "target resolved from the resulting bindings", 1)
 	c.R.Rule("C04-R6", "E3", "only the matcher and the guard decide a branch", 2)
 	c.R.Rule("C04-R8", "E3", "a script that returns an object yields non-nil bindings (an accepting guard is not read as a rejecting one)", 1)
+	c.shareRule("C02", "C02-R8", "C04-R12", "a state without bindings is stepped like one with empty bindings: the branches' patterns are matched from a non-nil copy")
+	c.shareRule("C15", "C15-R6", "C04-R13", "what an action or guard answers depends on the bindings and message of this step only: no script runtime survives from an earlier execution")
+	c.shareRule("C02", "C02-R4", "C04-R14", "the pattern of a branch is matched against the whole message: members of an array that were not consumed stay available (merged under fresh indexes)")
 	c.shareRule("C18", "C18-R3", "C04-R10", "a guard's rejection survives the wrapper every guard runs through: nil bindings stay nil")
 	c.R.Rule("C04-R11", "E3", "a failed action is routed by the spec's settings alone: the exits on the failed-action path depend only on the action's result, ActionErrorBranches and ActionErrorNode", 2)
 	c.R.Rule("C04-R9", "E7", "who may write: the engine never assigns the spec's action-error routing settings", 1)
